@@ -8,3 +8,4 @@ import Setec.Properties.C06
 import Setec.Properties.C07
 import Setec.Properties.C08
 import Setec.Properties.C09
+import Setec.Properties.C18
